@@ -59,7 +59,7 @@ fn read_path<'a>(scanner: &mut Scanner<'a>) -> ParseResult<Option<&'a str>> {
 
 /// Parse a `.d` file into `Deps`.
 pub fn parse<'a>(scanner: &mut Scanner<'a>) -> ParseResult<SmallMap<&'a str, Vec<&'a str>>> {
-    let mut result = SmallMap::default();
+    let mut result: SmallMap<&'a str, Vec<&'a str>> = SmallMap::default();
     loop {
         while matches!(scanner.peek(), ' ' | '\n') {
             scanner.next();
@@ -80,7 +80,12 @@ pub fn parse<'a>(scanner: &mut Scanner<'a>) -> ParseResult<SmallMap<&'a str, Vec
         while let Some(p) = read_path(scanner)? {
             deps.push(p);
         }
-        result.insert(target, deps);
+        // A target may be named more than once; keep all of its dependencies.
+        if let Some(entry) = result.iter_mut().find(|entry| entry.0 == target) {
+            entry.1.extend(deps);
+        } else {
+            result.insert(target, deps);
+        }
     }
     scanner.expect('\0')?;
 
